@@ -375,3 +375,18 @@ M('C14', 'vector-keys-as-strings', (WB, "y_prediction = {i: y_prediction[i] for 
 M('C14', 'river-numeric-int-truncation', (RIV, "            return {self.default_label: float(y_prediction)}\n        except ValueError:  # y_prediction is str", "            return {self.default_label: float(int(y_prediction))}\n        except ValueError:  # y_prediction is str"))
 M('C14', 'asarray-size-check-refactor', (WB, "            if np.size(y_prediction) == 1:  # float() only converts 0-dimensional arrays on recent NumPy versions\n                y_prediction = np.reshape(y_prediction, ())\n            return {self.default_label: float(y_prediction)}",
    "            if np.size(y_prediction) == 1:\n                return {self.default_label: float(np.asarray(y_prediction).ravel()[0])}\n            raise TypeError"), kind='equivalent')
+
+# ---- C18 ---------------------------------------------------------------------------------------
+TS = 'ixai/storage/tree_storage.py'
+TI = 'ixai/imputer/tree_imputer.py'
+M('C18', 'revert-fix-default-tree-seed', (TS, "        if seed is None:\n            seed = random.randrange(2 ** 32)\n", ""))
+M('C18', 'private-unseeded-rng-imputer', (MARG, "        rand_idx = random.randrange(len(features))\n        sampled_instance", "        rand_idx = _PRIVATE.randrange(len(features))\n        sampled_instance"),
+  (MARG, "class MarginalImputer(BaseImputer):", "_PRIVATE = random.Random()\n\n\nclass MarginalImputer(BaseImputer):"))
+M('C18', 'default-rng-permutation', (INC, "np.random.permutation(len(self.feature_names))]", "np.random.default_rng().permutation(len(self.feature_names))]"))
+M('C18', 'time-derived-acceptance', (GEO, "            random_float = random.random()\n", "            import time as _t\n            random_float = random.Random(_t.time_ns()).random()\n"))
+M('C18', 'id-ordered-product-draws', (MARG, "        for feature_name in feature_subset:\n            rand_idx = random.randrange(len(features))", "        for feature_name in sorted(feature_subset, key=id):\n            rand_idx = random.randrange(len(features))"))
+M('C18', 'module-global-call-counter', (MARG, "        rand_idx = random.randrange(len(features))\n        sampled_instance", "        global _CALLS\n        _CALLS += 1\n        rand_idx = (random.randrange(len(features)) + _CALLS // 50) % len(features)\n        sampled_instance"),
+  (MARG, "class MarginalImputer(BaseImputer):", "_CALLS = 0\n\n\nclass MarginalImputer(BaseImputer):"))
+M('C18', 'tree-imputer-system-random', (TI, "            random_index = random.randint(0, len(x_storage) - 1)", "            random_index = random.SystemRandom().randint(0, len(x_storage) - 1)"))
+M('C18', 'uniform-reservoir-numpy-default-rng', (UNI, "                rand_idx = random.randrange(self.size)", "                rand_idx = int(np.random.default_rng().integers(self.size))"))
+M('C18', 'numpy-global-for-slot', (UNI, "                rand_idx = random.randrange(self.size)", "                rand_idx = int(np.random.randint(self.size))"), kind='equivalent')
